@@ -49,7 +49,8 @@ def gen():
         b = F.inline_lets(F.fn_body(nd, fn, NODE))
         if not re.search(r"if\s+" + F.cmp_alt("begin", "end", "g", (">=",)) + r"\s*\{\s*return\s+Err\(SudachiError::InvalidRange\(begin,\s*end\)\)", b):
             raise F.FactError("%s: guard `begin >= end` not recognised" % fn)
-        if not re.search(r"path\[begin\]\s*=\s*node;\s*path\.drain\(begin\s*\+\s*1\s*\.\.\s*end\);", b):
+        # (the merged node under any name: what is stored is the ResultNode built here)
+        if not re.search(r"let\s+(\w+)\s*=\s*ResultNode::new\((?:[^;]*)\);\s*path\[begin\]\s*=\s*\1;\s*path\.drain\(begin\s*\+\s*1\s*\.\.\s*end\);", b):
             raise F.FactError("%s: replacement of path[begin..end] not recognised" % fn)
         if not re.search(r"path\[begin\]\.begin\(\)\s*as\s+u16,\s*path\[end\s*-\s*1\]\.end\(\)\s*as\s+u16", b):
             raise F.FactError("%s: range of the new node not recognised" % fn)
@@ -64,7 +65,11 @@ def gen():
         out.append("Definition %s_error_returns : N := %s.\nDefinition %s_question_marks : N := %s.\n" % (fn, F.coq_int(n_err), fn, F.coq_int(n_q)))
     if not re.search(r"WordId::INVALID,\s*\)", F.fn_body(nd, "concat_nodes", NODE)):
         raise F.FactError("concat_nodes: new node is no longer given WordId::INVALID")
-    if not re.search(r"let\s+pos_id\s*=\s*path\[begin\]\.word_info\(\)\.pos_id\(\);", F.inline_lets(F.fn_body(nd, "concat_nodes", NODE))):
+    # (bound to a name and used by field short-hand, or written into the field directly)
+    cb = F.inline_lets(F.fn_body(nd, "concat_nodes", NODE))
+    first_pos = r"path\[begin\]\.word_info\(\)\.pos_id\(\)"
+    if not ((re.search(r"let\s+pos_id\s*=\s*" + first_pos + r";", cb) and re.search(r"WordInfoData\s*\{[^{}]*\bpos_id\s*,", cb))
+            or re.search(r"WordInfoData\s*\{[^{}]*\bpos_id\s*:\s*" + first_pos + r"\s*,", cb)):
         raise F.FactError("concat_nodes: part of speech is no longer taken from path[begin]")
     # katakana loop
     k = F.strip_comments(F.src(KAT))
@@ -73,7 +78,10 @@ def gen():
     if not m:
         raise F.FactError("join_katakana_oov::rewrite_gen: merge step not recognised")
     out.append("Definition kat_merge_above : N := %s.\nDefinition kat_resume : N := %s.\n" % (F.coq_int(int(m.group(1))), F.coq_int(int(m.group(2)) + int(m.group(3)))))
-    if not re.search(r"let\s+mut\s+end\s*=\s*i\s*\+\s*1;", b) or not re.search(r"let\s+mut\s+begin\s*=\s*i\s+as\s+i32\s*-\s*1;", b):
+    # (the signed counter of the leftward scan under any name; `begin` is that counter clamped at 0)
+    left = re.search(r"let\s+mut\s+(\w+)\s*=\s*i\s+as\s+i32\s*-\s*1;", b)
+    clamp = left and re.search(r"let\s+mut\s+begin\s*=\s*(?:if\s+%s\s*<\s*0\s*\{\s*0\s*\}\s*else\s*\{\s*%s\s+as\s+usize\s*\}|%s\.max\(0\)\s+as\s+usize)\s*;" % ((left.group(1),) * 3), b)
+    if not re.search(r"let\s+mut\s+end\s*=\s*i\s*\+\s*1;", b) or not clamp:
         raise F.FactError("join_katakana_oov::rewrite_gen: scan start not recognised")
     if not re.search(r"if\s+!\(node\.is_oov\(\)\s*\|\|\s*self\.is_shorter\(node\)\)\s*\|\|\s*!self\.is_katakana_node\(text,\s*node\)", b):
         raise F.FactError("join_katakana_oov::rewrite_gen: trigger condition not recognised")
